@@ -352,4 +352,51 @@ Section LookupR.
       - right. split; [exact A|]. intros k (body & A1 & B1 & C1 & D1 & E1). apply (B k). exists body. rewrite <- ET. auto. }
     rewrite (host_rules_unique _ h r1 r2 U H1 H2'). unfold a_lookup_rules. rewrite Ep, Eo. reflexivity.
   Qed.
+
+  Lemma regex_host_for_members S1 S2 h k :
+    (forall k, same_members (s_tree S1 k) (s_tree S2 k)) -> regex_host_for S1 h k -> regex_host_for S2 h k.
+  Proof.
+    intros M (body & A & B & C & D & E). exists body. repeat split; auto.
+    intros N. apply E. pose proof (same_members_nonempty _ _ (M k)) as X. rewrite N in X.
+    destruct (s_tree S1 k); [reflexivity|discriminate].
+  Qed.
+
+  Lemma host_rules_members S1 S2 h r1 r2 :
+    (forall k, same_members (s_tree S1 k) (s_tree S2 k)) ->
+    (forall k1 k2, regex_host_for S1 h k1 -> regex_host_for S1 h k2 -> k1 = k2) ->
+    host_rules S1 h r1 -> host_rules S2 h r2 -> same_members r1 r2.
+  Proof.
+    intros M U H1 H2. unfold host_rules, nonempty in *.
+    assert (M' : forall k, same_members (s_tree S2 k) (s_tree S1 k)) by (intros k e; symmetry; apply M).
+    rewrite <- (same_members_nonempty _ _ (M h)) in H2.
+    destruct (is_nil (s_tree S1 h)); [|subst; apply M].
+    rewrite <- (same_members_nonempty _ _ (M (wild_of h))) in H2.
+    destruct (is_nil (s_tree S1 (wild_of h))); [|subst; apply M].
+    destruct H1 as [(k1 & R1 & ->)|[-> N1]], H2 as [(k2 & R2 & ->)|[-> N2]].
+    - rewrite (U k1 k2 R1 (regex_host_for_members S2 S1 h k2 M' R2)). apply M.
+    - exfalso. apply (N2 k1). apply (regex_host_for_members S1 S2 h k1 M R1).
+    - exfalso. apply (N1 k2). apply (regex_host_for_members S2 S1 h k2 M' R2).
+    - intros e; tauto.
+  Qed.
+
+  (** order independence with regex hostnames, on membership: two histories
+      whose configurations hold, per hostname, the same SET of rules route
+      alike, when at most one configured regex hostname covers the request
+      host and no two equally ranked rules tie *)
+  Lemma order_independent_regex_lemma h1 h2 h path m :
+    rplain_history re_ok h1 -> rplain_history re_ok h2 -> good_key h -> label_of h <> [STAR] ->
+    s_pre (config re_ok h1) = s_pre (config re_ok h2) ->
+    s_post (config re_ok h1) = s_post (config re_ok h2) ->
+    (forall k, same_members (s_tree (config re_ok h1) k) (s_tree (config re_ok h2) k)) ->
+    (forall k1 k2, regex_host_for (config re_ok h1) h k1 -> regex_host_for (config re_ok h1) h k2 -> k1 = k2) ->
+    (forall rules, host_rules (config re_ok h1) h rules -> no_ties re_match path m rules) ->
+    route_lookup re_match (run re_ok re_match h1) h path m = route_lookup re_match (run re_ok re_match h2) h path m.
+  Proof.
+    intros P1 P2 G NS Ep Eo M U NT.
+    destruct (lookup_refines_r _ _ h path m (run_refines_r re_ok re_match h1 P1) G NS) as (r1 & H1 & ->).
+    destruct (lookup_refines_r _ _ h path m (run_refines_r re_ok re_match h2 P2) G NS) as (r2 & H2 & ->).
+    unfold a_lookup_rules. rewrite Ep, Eo.
+    rewrite (select_order_independent re_match path m r1 r2); [reflexivity| |apply NT; exact H1].
+    apply (host_rules_members _ _ h r1 r2 M U H1 H2).
+  Qed.
 End LookupR.
